@@ -180,4 +180,43 @@ theorem udp_emsgsize (cfg : Cfg) (k : Kernel) (fd len : Nat) (dst : SockAddr) (s
 
 example : udpMaxPayload {} (.host 1 false) = 1472 ∧ udpMaxPayload {} (.lo true) = 65488 := by decide
 
+/-- The UDP size limit is a property of the DESTINATION's path only (loopback MTU iff the
+    destination is a loopback address, IPv6 header iff the destination is IPv6): the very same
+    `sendto` gets the same verdict from any two bound sockets, in any two kernels — whatever
+    their bound addresses (wildcard, loopback, an external address) and whatever source address
+    is selected afterwards; and the verdict is `EMSGSIZE` exactly above that limit. -/
+theorem udp_limit_is_destination_path (cfg : Cfg) (k k' : Kernel) (fd fd' len : Nat) (dst : SockAddr)
+    (s s' : Socket) (b b' : BindKey)
+    (hs : k.getSock fd = some s) (hs' : k'.getSock fd' = some s')
+    (hb : s.bound = some b) (hb' : s'.bound = some b') :
+    ((k.udpSendTo cfg fd len dst).2 = .err .msgSize ↔
+      len > (if dst.ip.isLoopback then cfg.loMtu else cfg.mtu)
+              - (if dst.ip.isV6 then ipv6Header else ipv4Header) - udpHeader) ∧
+    ((k.udpSendTo cfg fd len dst).2 = (k'.udpSendTo cfg fd' len dst).2) := by
+  have key : ∀ (k : Kernel) (fd : Nat) (s : Socket) (b : BindKey), k.getSock fd = some s →
+      s.bound = some b →
+      (k.udpSendTo cfg fd len dst).2 =
+        if len > udpMaxPayload cfg dst.ip then .err .msgSize else .ok len := by
+    intro k fd s b hs hb
+    unfold Kernel.udpSendTo
+    simp only [hs, hb]
+    by_cases h : len > udpMaxPayload cfg dst.ip
+    · rw [if_pos h, if_pos h]
+    · rw [if_neg h, if_neg h]
+  constructor
+  · rw [key k fd s b hs hb]
+    unfold udpMaxPayload
+    by_cases h : len > (if dst.ip.isLoopback then cfg.loMtu else cfg.mtu)
+        - (if dst.ip.isV6 then ipv6Header else ipv4Header) - udpHeader
+    · simp [h]
+    · simp [h]
+  · rw [key k fd s b hs hb, key k' fd' s' b' hs' hb']
+
+/-- mtu ≠ loopback_mtu in both directions: what a socket's own address would allow is irrelevant. -/
+example :
+    udpMaxPayload { mtu := 1500, loMtu := 600 } (.lo false) = 572 ∧
+    udpMaxPayload { mtu := 1500, loMtu := 600 } (.host 0 false) = 1472 ∧
+    udpMaxPayload { mtu := 600, loMtu := 1500 } (.lo true) = 1452 ∧
+    udpMaxPayload { mtu := 600, loMtu := 1500 } (.host 1 true) = 552 := by decide
+
 end TV.C16
